@@ -110,9 +110,19 @@ ConsumeHelper(r) ==
   IF r.raised # "none" THEN Fail(tid, r, "Total")
   ELSE /\ Check(tid, r, "HelperFactorDivides", \A i \in 1..Len(r.obs.facts) : r.obs.facts[i].divides)
        /\ Check(tid, r, "HelperProductIsModulus", r.obs.none \/ r.obs.product_is_n)
+\* the process-wide registry of check singletons (paranoid.Get*Checks): exactly the documented checks of the kind, each name once,
+\* every check named after its class with its documented severity, the same objects on every call, all = singles then aggregates
+ConsumeRegistry(r) ==
+  IF r.raised # "none" THEN Fail(tid, r, "Total")
+  ELSE /\ Check(tid, r, "RegistryIsTheDocumentedCheckTable", ToSet(r.obs.names) = SeqSet(ChecksOf(r.kind)) /\ Len(r.obs.names) = Len(ChecksOf(r.kind)))
+       /\ Check(tid, r, "CheckNamedAfterItsClass", \A i \in 1..Len(r.obs.names) : r.obs.class_names[i] = r.obs.names[i] /\ r.obs.check_names[i] = r.obs.names[i])
+       /\ Check(tid, r, "RegistryDocumentedSeverity", \A i \in 1..Len(r.obs.names) : r.obs.names[i] \in AllCheckNames => r.obs.sevs[i] = Severity(r.obs.names[i]))
+       /\ Check(tid, r, "RegistrySingletons", r.obs.same_objects_on_second_call)
+       /\ Check(tid, r, "AllIsSinglesThenAggregates", r.obs.all_is_union)
 TInit == tid = 1 /\ RegInit
 TNext == /\ tid <= NRecs
-         /\ IF Recs[tid].ev = "helper" THEN ConsumeHelper(Recs[tid]) ELSE Consume(Recs[tid])
+         /\ IF Recs[tid].ev = "helper" THEN ConsumeHelper(Recs[tid])
+            ELSE IF Recs[tid].ev = "registry" THEN ConsumeRegistry(Recs[tid]) ELSE Consume(Recs[tid])
          /\ tid' = tid + 1
 TSpec == TInit /\ [][TNext]_tid
 =============================================================================
